@@ -214,14 +214,28 @@ class StlRegionHarness(Harness):
     want_ta = z3.If(zint(jc) == 1, 0, z3.If(zint(jc) == 3, 2, 1))
     got_ta = {styles.TextAlignType.start: 0, styles.TextAlignType.center: 1, styles.TextAlignType.end: 2}[p.get_style(SP.TextAlign)]
     ex.prove(want_ta == got_ta, "C09:justification", det)
+    # a third subtitle at another (symbolic) row: whichever region it gets, shared or new, must be anchored at *its* row
+    vp3 = ex.integer("vp3", 1, 99)
+    ex.assume(zint(vp3) + params["lines"] * lh_ - 1 <= zint(rows))
+    tti3 = (0, 3, 0xFF, 0, 0, 0, 5, 0, 0, 0, 6, 0, vp3, jc, 0, tf_field)
+    _, exc = call(ex, df.process_tti_block, tti3)
+    if not exc:
+      p3 = [e for e in doc.get_body().dfs_iterator() if isinstance(e, model.P)][-1]
+      r3 = p3.get_region()
+      o3, x3 = r3.get_style(SP.Origin), r3.get_style(SP.Extent)
+      if r3.get_style(SP.DisplayAlign) is styles.DisplayAlignType.before:
+        ex.prove(close(zreal(o3.y.value), 10 + (zreal(vp3) - 1) * row_h), "C09:region-anchored-at-vp", dict(det, third=True, shared=r3 is r))
+      else:
+        ex.prove(close(zreal(o3.y.value) + zreal(x3.height.value), 10 + (zreal(vp3) - 1 + params["lines"] * lh) * row_h),
+                 "C09:region-anchored-at-vp", dict(det, third=True, shared=r3 is r))
     # a second subtitle with the same parameters uses the same region
     tti2 = (0, 2, 0xFF, 0, 0, 0, 3, 0, 0, 0, 4, 0, vp, jc, 0, tf_field)
     _, exc = call(ex, df.process_tti_block, tti2)
     if not exc:
       ps = [e for e in doc.get_body().dfs_iterator() if isinstance(e, model.P)]
-      if len(ps) == 2:
+      if len(ps) >= 2:
         ex.witness("region-reused")
-        ex.prove(ps[1].get_region() is r, "C09:equal-parameters-share-region", det)
+        ex.prove(ps[-1].get_region() is r, "C09:equal-parameters-share-region", det)
 
 
 register(StlRegionHarness())
@@ -334,7 +348,7 @@ class StlTextHarness(Harness):
   validate_models = 2
 
   def partitions(self, tier):
-    return [{"teletext": t, "first": i} for t in (0, 1) for i in range(len(CLASSES))] + [{"classify": True}]
+    return [{"teletext": t, "first": i} for t in (0, 1) for i in range(len(CLASSES))] + [{"classify": True}, {"blocks": True}]
 
   def patches(self, params):
     return []
@@ -352,6 +366,8 @@ class StlTextHarness(Harness):
       else:
         ex.fail("C09:byte-class", {"observed": hits, "reason": "more than one class"})
       return
+    if params.get("blocks"):
+      return self.blocks(ex)
     n = 4 if ex.tier == "quick" else 5
     teletext = bool(params["teletext"])
     data = []
@@ -394,6 +410,51 @@ class StlTextHarness(Harness):
       ex.prove(not bad, "C09:text-attributes", {"teletext": teletext, "_field": bytes(data).hex(), "_first": str(bad[:1])[:120]})
 
 
+def _blocks(self, ex):
+  """TTI block sequences: subtitles of 1-2 blocks (extension blocks concatenated), user-data blocks skipped, subtitles before the
+  programme start dropped -- the text of a dropped or skipped block must not leak into the next subtitle"""
+  import io
+  from ttconv.stl.config import STLReaderConfiguration
+  stl_reader = __import__("ttconv.stl.reader", fromlist=["to_model"])
+  blocks = []
+  want = []
+  sn = 0
+  for k in range(3):
+    kind = ex.choice("blk%d" % k, 5)   # 0 end, 1 single, 2 two-block subtitle, 3 user data, 4 single before start (dropped)
+    if kind == 0:
+      break
+    sn += 1
+    early = kind == 4 or (kind == 2 and ex.boolean("blk%d_early" % k))
+    h = 9 if early else 10
+    def tti(ebn, text, sn_=sn, h_=h):
+      return struct.pack("<BHBBBBBBBBBBBBB112s", 0, sn_, ebn, 0, h_, 0, sn_, 0, h_, 0, sn_ + 1, 0, 20, 2, 0, text + b"\x8f" * (112 - len(text)))
+    if kind in (1, 4):
+      blocks.append(tti(0xFF, b"S%d" % sn))
+      if not early:
+        want.append("S%d" % sn)
+    elif kind == 2:
+      blocks.append(tti(0x00, b"X%d" % sn))
+      blocks.append(tti(0xFF, b"Y%d" % sn))
+      if not early:
+        want.append("X%dY%d" % (sn, sn))
+    else:
+      blocks.append(tti(0xFE, b"USERDATA"))
+  doc, exc = call(ex, stl_reader.to_model, io.BytesIO(gsi_block() + b"".join(blocks)), STLReaderConfiguration(program_start_tc="10:00:00:00"))
+  if exc:
+    if not isinstance(exc[0], (ValueError, struct.error, UnicodeDecodeError)):
+      ex.fail("C18:stl-reader-raises", {"site": exc[1], "exc": type(exc[0]).__name__, "what": "blocks"})
+    return
+  if "C09" not in ex.active:
+    return
+  got = []
+  for p_ in doc.get_body().dfs_iterator():
+    if isinstance(p_, model.P):
+      got.append("".join(t.get_text() for t in p_.dfs_iterator() if isinstance(t, model.Text)))
+  ex.witness("colour-applied"); ex.witness("newline"); ex.witness("stopped-at-unused-space"); ex.witness("diacritic")
+  ex.prove(got == want, "C09:subtitle-blocks", {"_got": got, "_want": want})
+
+
+StlTextHarness.blocks = _blocks
 register(StlTextHarness())
 
 
